@@ -38,7 +38,8 @@ A method may return an object, a BITS pointer (a bit array object: the id of its
                                            | the VALUE `(σ.bitBuf E).take k` where only the items are read (argument of ba2int / extend / a BITSVAL parameter)
               ba2int(V, signed=False) -> Py.Heap.ba2intU? (INT; raises on an empty V) ; int2ba(v, n, signed=False) -> Py.Heap.int2baU? (a BITSVAL)
               X.m(a, ..)  another translated method with arguments (its own definition)
-  statements  E.extend(V)   E : BITS -> Py.Heap.extendBits?: the container E is extended IN PLACE by the items of V (TvmBitarray.extend: overflow check first)
+  statements  E.extend(F)   E, F : REFS -> Py.Heap.extendRefs (the same as E += F)
+              E.extend(V)   E : BITS -> Py.Heap.extendBits?: the container E is extended IN PLACE by the items of V (TvmBitarray.extend: overflow check first)
               del E[:k]     E : BITS -> Py.Heap.delBits?: the first k bits are deleted IN PLACE (TvmBitarray.__delitem__: underflow check first)
               X.<list attr> += F   F : REFS -> Py.Heap.extendRefs: the list X.<attr> points to is extended IN PLACE by the ELEMENTS of F; the pointer stays
               X.m(a, ..)    as a statement: the heap effect of the translated method, result dropped
@@ -460,6 +461,14 @@ class HTr:
         if (isinstance(s, ast.Expr) and isinstance(s.value, ast.Call) and isinstance(s.value.func, ast.Attribute) and s.value.func.attr == 'extend'
                 and len(s.value.args) == 1 and not s.value.keywords):
             tgt, tt = self.expr(s.value.func.value)
+            if tt == REFS:                                   # l.extend(m) = l += m: in place, by the elements
+                v, t = self.expr(s.value.args[0])
+                if t != REFS:
+                    raise Untranslatable(f'list.extend of a {t}')
+                prev = self.s
+                self.k += 1
+                self.lines.append(f'let {self.s} := Py.Heap.extendRefs {prev} {tgt} {v}')
+                return self.block(rest)
             if tt != BITS:
                 raise Untranslatable(f'extend of a {tt}')
             v = self.val(s.value.args[0])
